@@ -6,6 +6,7 @@
 package c09
 
 import (
+	"context"
 	"encoding/json"
 	"fmt"
 	"io"
@@ -122,6 +123,7 @@ type reqPlan struct {
 	key1    string // "", "good", "bad"
 	key2    string
 	deny    bool
+	ctxDone bool // the client has gone away: the request's context is already cancelled when it is served
 	ctype   string
 	accept  string
 	program []int // accessor program (flow B)
@@ -245,6 +247,11 @@ func (p *reqPlan) build() (*http.Request, *countingBody) {
 	}
 	if p.deny {
 		r.Header.Set("X-Deny", p.tok)
+	}
+	if p.ctxDone {
+		cctx, cancel := context.WithCancel(r.Context())
+		cancel()
+		r = r.WithContext(cctx)
 	}
 	return r, body
 }
@@ -584,6 +591,7 @@ func (prop) Run(t *testing.T, tape *kernel.Tape, sc kernel.Scenario) *kernel.Res
 		p.key1 = []string{"good", "", "bad", "good"}[tape.Choose(4, "key1")]
 		p.key2 = []string{"good", "", "bad", "good"}[tape.Choose(4, "key2")]
 		p.deny = tape.Bool(8, "deny")
+		p.ctxDone = tape.Bool(6, "request-context-already-done")
 		p.ctype = []string{"application/json", "application/vnd.sim+json", "application/json; charset=utf-8", "text/plain", "Application/VND.sim+JSON"}[tape.Choose(5, "ctype")]
 		p.accept = acceptPool[tape.Choose(len(acceptPool), "accept")]
 		if i > 0 && sharedAccept {
